@@ -592,6 +592,83 @@ def _tokens(s):
     return [t for t in re.split(r'(<[A-Z0-9]+>|/|\\)', s) if t]
 
 
+# ----------------------------------------------------------------------------------------- Unicode twin roots
+# Roots whose name has a sibling that is "the same" under some text normalisation (NFC/NFD, case folding,
+# compatibility forms) but a different directory on a byte-exact filesystem: a containment test that
+# compares normalised text while the OS call uses the raw text lets requests into the sibling through.
+UNI_TWINS = [('caf\u00e9', 'cafe\u0301'), ('cafe\u0301', 'caf\u00e9'), ('Stra\u00dfe', 'Strasse'), ('strasse', 'STRASSE'),
+             ('\uff52oot', 'root'), ('root', '\uff52oot'), ('\u03c3\u03b1\u03c3', '\u03c3\u03b1\u03c2'), ('\u212b', '\u00c5'),
+             ('\ufb01le', 'file'), ('ro\u0131t', 'roit')]
+
+
+def _twin_paths(base, root, sib):
+    out = []
+    for leaf in ('secret.txt', 'sub/secret.txt'):
+        for pre in ('../', 'sub/../../', './../', '../../' + os.path.basename(os.path.dirname(root)) + '/', root + '/../', os.path.dirname(root) + '/'):
+            q = pre + sib + '/' + leaf
+            out += [q, q.replace('/', '\\'), '/' + q if not q.startswith('/') else q]
+    return out
+
+
+def _make_twin_tree():
+    base = os.path.realpath(tempfile.mkdtemp(prefix='c18u_'))
+    ok = []
+    for k, (rootname, sib) in enumerate(UNI_TWINS):
+        try:
+            for d, leafs in ((rootname, ['in.txt', 'sub/in.txt']), (sib, ['secret.txt', 'sub/secret.txt'])):
+                for leaf in leafs:
+                    p = os.path.join(base, 'd%d' % k, d, leaf)
+                    os.makedirs(os.path.dirname(p), exist_ok=True)
+                    with open(p, 'w') as f:
+                        f.write('SECRET\n' if 'secret' in leaf else 'in\n')
+            if len(os.listdir(os.path.join(base, 'd%d' % k))) == 2:      # the filesystem keeps the two names apart
+                ok.append(k)
+        except OSError:
+            pass
+    return base, ok
+
+
+def unicode_twin_roots(ctx, fsmod):
+    base, ok = _make_twin_tree()
+    try:
+        for k in ok:
+            rootname, sib = UNI_TWINS[k]
+            sub = os.path.join(base, 'd%d' % k)
+            for path in _twin_paths(sub, os.path.join(sub, rootname), sib):
+                for op in ('resolve', 'exists', 'open_str', 'getopen', 'walk'):
+                    ctx.count('search:unicode-twin ' + op)
+                    if _twin_fails_at(fsmod, sub, rootname, sib, path, op):
+                        ctx.witness('root-escape-unicode-twin',
+                                    f'{op}({path.replace(base, "<T>")!r}) on a constrained filesystem rooted at <T>/d{k}/{rootname!r} reached the sibling '
+                                    f'directory {sib!r} (same text under a Unicode normalisation, a different directory on disk)',
+                                    {'unicode_twin': k, 'path': path.replace(base, '<T>'), 'op': op})
+                        break
+    finally:
+        shutil.rmtree(base, ignore_errors=True)
+
+
+def _twin_fails_at(fsmod, sub, rootname, sib, path, op):
+    root = os.path.join(sub, rootname)
+    root_real = os.path.realpath(root)
+    fs = fsmod.RawFileSystem(root, constrain_path=True)
+    try:
+        if op == 'resolve':
+            return not inside(root_real, os.path.realpath(fs._resolve_path(path)))
+        if op == 'exists':
+            return bool(path in fs)
+        if op == 'open_str':
+            with fs.open_str(path) as f:
+                return 'SECRET' in f.read()
+        if op == 'getopen':
+            with fs[path].open_bin() as f:
+                return b'SECRET' in f.read()
+        if op == 'walk':
+            return any('secret' in f.path for f in itertools.islice(fs.walk_folder(path.rsplit('/', 1)[0] if '/' in path else ''), WALK_CAP))
+    except Exception:
+        return False
+    return False
+
+
 def search(ctx):
     """Direct statement of the property on the implementation. The scan itself runs inside correspond (same
     inputs); when the driver is missing it runs here without the model. Then the first witness is shrunk."""
@@ -603,6 +680,10 @@ def search(ctx):
         finally:
             tree.close()
         ctx.extra.pop('_T', None)
+    try:
+        unicode_twin_roots(ctx, fsmod)
+    except Exception as e:
+        ctx.notes.append(f'unicode twin roots probe could not run: {type(e).__name__}: {e}')
     ws = [w for w in ctx.witnesses if w['key'] == 'root-escape']
     if ws:
         tree = Tree()
@@ -625,6 +706,17 @@ def search(ctx):
 def replay(ctx, payload):
     import srctools.filesys as fsmod
     inp = payload.get('input') or {}
+    if 'unicode_twin' in inp:
+        base, ok = _make_twin_tree()
+        try:
+            k = inp['unicode_twin']
+            rootname, sib = UNI_TWINS[k]
+            bad = k in ok and _twin_fails_at(fsmod, os.path.join(base, 'd%d' % k), rootname, sib, inp['path'].replace('<T>', base), inp['op'])
+            print('root', repr(rootname), 'sibling', repr(sib), inp['op'], repr(inp['path']), '->',
+                  'reached the sibling directory outside the root' if bad else 'stayed inside the root or raised RootEscapeError')
+            return not bad
+        finally:
+            shutil.rmtree(base, ignore_errors=True)
     if 'path' not in inp:
         if 's' in inp:
             from srctools.packlist import unify_path
